@@ -1,0 +1,16 @@
+//go:build verif
+
+package keys
+
+// Contracts for the verif build tag (comment-only; see /verif/DESIGN.md).
+// Elliptic-curve arithmetic is outside the verifier's reach: key equality is an
+// uninterpreted relation and (*PublicKey).Equal is assumed to compute it.
+
+//@ spec keyEq(a *PublicKey, b *PublicKey) bool
+//@ exec-import keys github.com/nspcc-dev/neo-go/pkg/crypto/keys
+//@ exec keyEq func(a, b *keys.PublicKey) bool { return a.Equal(b) }
+
+//@ func (*PublicKey).Equal
+//@ assumed
+//@ pure
+//@ ensures result == keyEq(p, key)
